@@ -12,6 +12,8 @@
 //        out: per arrival the batch sequences drained, `|`-separated (`-` = none)
 //   expired <x|l per item>                            one SubmitLocal whose 'x' items carry a past Deadline (public API)
 //        out: sent=<idx…> res=<kind…> stored=<idx…>
+//   routerdl <variant> <seed> / idlewriter <retentionMs> <seed>   steered (see the functions); out: ev=<tokens>, extra token
+//        X.ch = a second AppendBatch for channel ch arrived while one was in flight
 //   traffic <nch> <senders> <calls> <maxItems> <dupPct> <failPct> <latUs> <admCap> <backlog> <fenced> <router> <coalesce> <seed>
 //        concurrent SendBatch / SubmitLocal callers over several channels against a REAL Group (+Router) with a
 //        fake Appender / IdempotencyStore port (per-channel serialiser = the reference map; random latencies,
@@ -119,6 +121,15 @@ func genC29(g *Gen) {
 			g.Count(fmt.Sprintf("rec:mixed-retry-mode-%d", retry))
 		}
 		g.Op("rec", "%d %d %d%s", errKind, hasStore, retry, sb.String())
+	}
+	// steered: terminal-signal merging in the Router, idle-writer reclamation while an append is in flight
+	for v := 0; v < 3; v++ {
+		g.Count("steer:routerdl")
+		g.Op("routerdl", "%d %d", v, g.R.U64()>>1)
+	}
+	for _, ms := range []int{1, 2} {
+		g.Count("steer:idlewriter")
+		g.Op("idlewriter", "%d %d", ms, g.R.U64()>>1)
 	}
 	// expired items at append time: every flag pattern up to length 4, then random longer ones
 	for n := 1; n <= 4; n++ {
@@ -309,6 +320,13 @@ type c29Port struct {
 	req     atomic.Int64
 	lk      atomic.Int64
 	chans   sync.Map // int -> *c29Chan
+	// per-channel appends in flight (the runtime promises at most one: AppendInflightBatchesPerChannel = 1)
+	inflight sync.Map // int -> *atomic.Int64
+	// steering: the first append of channel gateCh announces itself and waits for the gate
+	gateCh   int
+	gateOnce sync.Once
+	entered  chan struct{}
+	gate     chan struct{}
 }
 
 func (p *c29Port) ch(c int) *c29Chan {
@@ -347,6 +365,22 @@ func (p *c29Port) AppendBatch(_ context.Context, req channelappend.AppendBatchRe
 		toks = append(toks, fmt.Sprintf("M.%d.%d.%d.%d.%d", n, c29Num(m.FromUID), c29Num(m.ClientMsgNo), c29PayloadNum(m.Payload), m.MessageID))
 	}
 	p.log.addAll(toks)
+	cnt, _ := p.inflight.LoadOrStore(c, &atomic.Int64{})
+	if cnt.(*atomic.Int64).Add(1) > 1 {
+		p.log.add("X.%d", c)
+	}
+	defer cnt.(*atomic.Int64).Add(-1)
+	if p.gate != nil && c == p.gateCh {
+		first := false
+		p.gateOnce.Do(func() { first = true })
+		if first {
+			close(p.entered)
+			select {
+			case <-p.gate:
+			case <-time.After(10 * time.Second):
+			}
+		}
+	}
 	h := c29mix(p.seed, uint64(n))
 	if p.latUs > 0 {
 		time.Sleep(time.Duration(h%uint64(p.latUs+1)) * time.Microsecond)
@@ -471,6 +505,10 @@ func (r *c29Runner) Step(op string) string {
 		return c29Drain(f[1:])
 	case "expired":
 		return c29Expired(f[1:])
+	case "routerdl":
+		return c29RouterDeadline(f[1:])
+	case "idlewriter":
+		return c29IdleWriter(f[1:])
 	}
 	return "bad-op"
 }
@@ -639,6 +677,160 @@ func c29Expired(f []string) string {
 		}
 	}
 	return fmt.Sprintf("sent=%s res=%s stored=%s", c29Ints(sent), c29Ints(kinds), c29Ints(stored))
+}
+
+func c29LogResults(log *c29Log, id int, results []channelappend.SendBatchItemResult) {
+	toks := []string{fmt.Sprintf("L.%d.%d", id, len(results))}
+	for i, r := range results {
+		kind, mid, seq := 0, r.Result.MessageID, r.Result.MessageSeq
+		switch {
+		case r.Err != nil:
+			kind, mid, seq = 2, 0, 0
+		case r.Result.Reason != channelappend.ReasonSuccess:
+			kind, mid, seq = 1, 0, 0
+		}
+		toks = append(toks, fmt.Sprintf("R.%d.%d.%d.%d.%d", id, i, kind, mid, seq))
+	}
+	toks = append(toks, fmt.Sprintf("E.%d", id))
+	log.addAll(toks)
+}
+
+// c29RouterDeadline <variant> <seed>: one Router.SendBatch of two sends to one channel; X carries BOTH a
+// cancellable Context and a Deadline, Y a live Context and a far Deadline (variant 1: Y has no client number).
+// The append is held in the port; X's context is cancelled and X's deadline passes while it is in flight; then
+// the append is released.  No port failures: every send must reach the Appender exactly once and Y must succeed.
+func c29RouterDeadline(f []string) string {
+	if len(f) != 2 {
+		return "bad-op"
+	}
+	variant, err := strconv.Atoi(f[0])
+	if err != nil || variant < 0 || variant > 2 {
+		return "bad-op"
+	}
+	if _, err := strconv.ParseUint(f[1], 10, 64); err != nil {
+		return "bad-op"
+	}
+	log := &c29Log{}
+	port := &c29Port{log: log, gateCh: 0, entered: make(chan struct{}), gate: make(chan struct{})}
+	group := channelappend.New(channelappend.Options{LocalNodeID: 1, Appender: port, Idempotency: port, MessageID: &c29IDs{}, InboxCoalesceWindow: -1})
+	if err := group.Start(context.Background()); err != nil {
+		return "start-failed"
+	}
+	rt := channelappend.NewRouter(channelappend.RouterOptions{LocalNodeID: 1, Resolver: c29Resolver{}, Local: group,
+		RetryBackoff: 200 * time.Microsecond, MaxRouteAttempts: 3})
+	xctx, xcancel := context.WithCancel(context.Background())
+	yctx, ycancel := context.WithCancel(context.Background())
+	defer ycancel()
+	xDeadline := time.Now().Add(15 * time.Millisecond)
+	ym := 2
+	if variant == 1 {
+		ym = 0
+	}
+	items := []channelappend.SendBatchItem{
+		{Context: xctx, Deadline: xDeadline, Command: channelappend.SendCommand{FromUID: "u1", ClientMsgNo: c29Msg(1), ChannelID: "c0", ChannelType: 2, Payload: c29Payload(1)}},
+		{Context: yctx, Deadline: time.Now().Add(20 * time.Second), Command: channelappend.SendCommand{FromUID: "u1", ClientMsgNo: c29Msg(ym), ChannelID: "c0", ChannelType: 2, Payload: c29Payload(2)}},
+	}
+	if variant == 2 { // control: X has only a deadline
+		items[0].Context = context.Background()
+	}
+	log.addAll([]string{"I.1.0.0.1.1.1", fmt.Sprintf("I.1.1.0.1.%d.2", ym), "B.1"})
+	done := make(chan []channelappend.SendBatchItemResult, 1)
+	go func() { done <- rt.SendBatch(items) }()
+	select { // the append is in flight (held)
+	case <-port.entered:
+	case <-time.After(5 * time.Second):
+	}
+	xcancel()
+	if d := time.Until(xDeadline); d > 0 {
+		time.Sleep(d)
+	}
+	time.Sleep(10 * time.Millisecond) // both terminal sources of X have fired; a wrongly cancelled group re-submits Y meanwhile
+	close(port.gate)
+	var results []channelappend.SendBatchItemResult
+	select {
+	case results = <-done:
+	case <-time.After(25 * time.Second):
+		log.add("H.1")
+	}
+	c29LogResults(log, 1, results)
+	sctx, cancel := context.WithTimeout(context.Background(), 25*time.Second)
+	if err := group.Stop(sctx); err != nil {
+		log.add("H.0")
+	}
+	cancel()
+	log.mu.Lock()
+	defer log.mu.Unlock()
+	return "ev=" + strings.Join(log.tok, ",")
+}
+
+// c29IdleWriter <retentionMs> <seed>: WriterIdleRetention is tiny, one shard.  An append to channel 0 is held in
+// the port for longer than the retention; then the FIRST send to channel 1 (writer creation runs the idle
+// sweep of the shard); then another send to channel 0.  The writer of channel 0 has an append in flight, so it
+// must not be reclaimed: the second send to channel 0 waits behind the first (one append in flight, order kept).
+func c29IdleWriter(f []string) string {
+	if len(f) != 2 {
+		return "bad-op"
+	}
+	ret, err := strconv.Atoi(f[0])
+	if err != nil || ret < 1 || ret > 100 {
+		return "bad-op"
+	}
+	if _, err := strconv.ParseUint(f[1], 10, 64); err != nil {
+		return "bad-op"
+	}
+	log := &c29Log{}
+	port := &c29Port{log: log, gateCh: 0, entered: make(chan struct{}), gate: make(chan struct{})}
+	group := channelappend.New(channelappend.Options{LocalNodeID: 1, Appender: port, Idempotency: port, MessageID: &c29IDs{},
+		AuthorityShardCount: 1, InboxCoalesceWindow: -1, WriterIdleRetention: time.Duration(ret) * time.Millisecond})
+	if err := group.Start(context.Background()); err != nil {
+		return "start-failed"
+	}
+	var wg sync.WaitGroup
+	send := func(id, ch, m int, wait bool) {
+		log.addAll([]string{fmt.Sprintf("I.%d.0.%d.1.%d.%d", id, ch, m, m), fmt.Sprintf("B.%d", id)})
+		target := channelappend.AuthorityTarget{ChannelID: channelappend.ChannelID{ID: "c" + strconv.Itoa(ch), Type: 2}, LeaderNodeID: 1, Epoch: 1, LeaderEpoch: 1}
+		items := []channelappend.SendBatchItem{{Context: context.Background(), Command: channelappend.SendCommand{
+			FromUID: "u1", ClientMsgNo: c29Msg(m), ChannelID: "c" + strconv.Itoa(ch), ChannelType: 2, Payload: c29Payload(m)}}}
+		fut, err := group.SubmitLocal(context.Background(), target, items)
+		if err != nil {
+			c29LogResults(log, id, []channelappend.SendBatchItemResult{{Err: err}})
+			return
+		}
+		finish := func() {
+			wctx, cancel := context.WithTimeout(context.Background(), 25*time.Second)
+			res, werr := fut.Wait(wctx)
+			cancel()
+			if werr != nil {
+				log.add("H.%d", id)
+			}
+			c29LogResults(log, id, res)
+		}
+		if wait {
+			finish()
+			return
+		}
+		wg.Add(1)
+		go func() { defer wg.Done(); finish() }()
+	}
+	send(1, 0, 1, false)
+	select {
+	case <-port.entered:
+	case <-time.After(5 * time.Second):
+	}
+	time.Sleep(time.Duration(3*ret) * time.Millisecond) // longer than the retention; only widens, never asserted on
+	send(2, 1, 2, true)                                // first send to another channel of the shard: idle sweep
+	send(3, 0, 3, false)                               // must queue behind the append in flight
+	time.Sleep(5 * time.Millisecond)
+	close(port.gate)
+	wg.Wait()
+	sctx, cancel := context.WithTimeout(context.Background(), 25*time.Second)
+	if err := group.Stop(sctx); err != nil {
+		log.add("H.0")
+	}
+	cancel()
+	log.mu.Lock()
+	defer log.mu.Unlock()
+	return "ev=" + strings.Join(log.tok, ",")
 }
 
 func c29Traffic(f []string) string {
